@@ -1,3 +1,270 @@
 // harnesses mounted as child module of agdb/src/collections/map.rs
 #[allow(unused_imports)]
 use super::*;
+
+// =============================================================================
+// C10 (mapping kernel, one direction): `MapImpl` = the unique-key map both
+// directions of the alias mapping are made of, instantiated
+// `<u64, u64, ArrStorage, ArrMap<C>>` (`ArrMap`: array-backed implementation of
+// the code base's own `MapData` trait; `StableHash for u64` is the identity, so
+// keys 0 / 64 / 128 collide in a 64-slot table and the solver controls
+// collisions). Histories start from the empty map as `DbMapData::new` creates it
+// (capacity 0; the first insert grows it to the minimum capacity 64).
+// Oracle: a reference map kept in plain arrays.
+// =============================================================================
+
+use crate::storage::verif_h::fresh_arr_storage;
+use crate::verif_support::ArrMap;
+use crate::verif_support::ArrStorage;
+use crate::verif_support::is_ok;
+use crate::verif_support::ok;
+
+pub(crate) type C10MapImpl<const C: usize> = MapImpl<u64, u64, ArrStorage, ArrMap<C>>;
+
+/// The empty map exactly as `DbMap::new` builds it (capacity 0, len 0).
+pub(crate) fn c10_empty_map<const C: usize>() -> C10MapImpl<C> {
+    MapImpl {
+        multi_map: MultiMapImpl {
+            data: ArrMap::<C>::empty(0),
+            phantom_marker: PhantomData,
+        },
+        storage: PhantomData,
+    }
+}
+
+pub(crate) fn c10_data<const C: usize>(m: &C10MapImpl<C>) -> &ArrMap<C> {
+    &m.multi_map.data
+}
+
+// The raw-table checks scan slots 0..C10_SCAN only: with the key domain below
+// every home slot is 0 or 1 and each step makes at most one more slot non-Empty
+// per table (a removal turns a Valid slot into a tombstone, it does not occupy
+// a new one), so after <= 4 steps only slots 0..=4 can be non-Empty and a probe
+// takes at most 5 steps: unwind 6. (Scanning all 64 slots would force the
+// global unwind bound to 65 for every probe loop.)
+pub(crate) const C10_SCAN: usize = 5;
+
+/// Number of Valid slots (among the first C10_SCAN) whose key is `key`
+/// (must be <= 1 in a unique-key map).
+pub(crate) fn c10_slots_with_key<const C: usize>(d: &ArrMap<C>, key: u64) -> u64 {
+    let mut n = 0u64;
+    let mut i = 0;
+    while i < C10_SCAN {
+        if (i as u64) < d.cap && d.states[i] == 1 && d.keys[i] == key {
+            n += 1;
+        }
+        i += 1;
+    }
+    n
+}
+
+pub(crate) fn c10_valid_slots<const C: usize>(d: &ArrMap<C>) -> u64 {
+    let mut n = 0u64;
+    let mut i = 0;
+    while i < C10_SCAN {
+        if (i as u64) < d.cap && d.states[i] == 1 {
+            n += 1;
+        }
+        i += 1;
+    }
+    n
+}
+
+// Small symbolic domains: 0 is also `u64::default()` (what removed slots are
+// overwritten with), 0 / 64 / 128 share home slot 0, 1 / 65 share home slot 1.
+pub(crate) const C10_DOMAIN: [u64; 5] = [0, 64, 1, 65, 128];
+
+pub(crate) fn c10_any_from_domain() -> u64 {
+    let i: usize = kani::any();
+    kani::assume(i < C10_DOMAIN.len());
+    C10_DOMAIN[i]
+}
+
+// reference map: at most one value per key
+pub(crate) struct C10RefMap {
+    pub used: [bool; 4],
+    pub keys: [u64; 4],
+    pub values: [u64; 4],
+}
+
+impl C10RefMap {
+    pub fn new() -> Self {
+        Self {
+            used: [false; 4],
+            keys: [0; 4],
+            values: [0; 4],
+        }
+    }
+    pub fn get(&self, key: u64) -> Option<u64> {
+        let mut r = None;
+        let mut i = 0;
+        while i < 4 {
+            if self.used[i] && self.keys[i] == key {
+                r = Some(self.values[i]);
+            }
+            i += 1;
+        }
+        r
+    }
+    pub fn len(&self) -> u64 {
+        let mut n = 0;
+        let mut i = 0;
+        while i < 4 {
+            if self.used[i] {
+                n += 1;
+            }
+            i += 1;
+        }
+        n
+    }
+    pub fn remove(&mut self, key: u64) {
+        let mut i = 0;
+        while i < 4 {
+            if self.used[i] && self.keys[i] == key {
+                self.used[i] = false;
+            }
+            i += 1;
+        }
+    }
+    /// slot `at` is the step number: never more entries than steps
+    pub fn insert(&mut self, at: usize, key: u64, value: u64) -> Option<u64> {
+        let old = self.get(key);
+        self.remove(key);
+        self.used[at] = true;
+        self.keys[at] = key;
+        self.values[at] = value;
+        old
+    }
+}
+
+fn c10_map_history<const STEPS: usize>() {
+    let mut s = fresh_arr_storage();
+    let mut m = c10_empty_map::<64>();
+    let mut reference = C10RefMap::new();
+    let mut replaced = false;
+    let mut reinserted_after_remove = false;
+    let mut removed_any = false;
+    // remove / lookup on the never-used map (capacity 0)
+    let k0 = c10_any_from_domain();
+    assert!(is_ok(m.remove(&mut s, &k0)), "remove on the empty map returned Err");
+    assert!(ok(m.value(&s, &k0)).is_none(), "empty map resolves a key");
+    let mut step = 0;
+    while step < STEPS {
+        let k = c10_any_from_domain();
+        // step 0 is always an insert: it grows the table 0 -> 64, after which the
+        // capacity is a constant for CBMC (a symbolic first step makes every
+        // later step re-explore the growth path: out of memory)
+        if step == 0 || kani::any() {
+            let v: u64 = kani::any();
+            let expect_old = reference.insert(step, k, v);
+            let old = ok(m.insert(&mut s, &k, &v));
+            assert!(old == expect_old, "insert must return the value it replaced (None for a new key)");
+            if expect_old.is_some() {
+                replaced = true;
+            }
+            if removed_any && expect_old.is_none() {
+                reinserted_after_remove = true;
+            }
+        } else {
+            if reference.get(k).is_some() {
+                removed_any = true;
+            }
+            reference.remove(k);
+            assert!(is_ok(m.remove(&mut s, &k)), "remove returned Err");
+        }
+        // observable state agrees with the reference for every key of the domain
+        let q = c10_any_from_domain();
+        let got = ok(m.value(&s, &q));
+        assert!(got == reference.get(q), "value() differs from the reference map");
+        let has = ok(m.contains(&s, &q));
+        assert!(has == reference.get(q).is_some(), "contains() differs from the reference map");
+        assert!(m.len() == reference.len(), "len() differs from the reference map");
+        assert!(m.is_empty() == (reference.len() == 0), "is_empty() differs from the reference map");
+        // structure: a key occupies at most one Valid slot; len counts the Valid slots
+        let d = c10_data(&m);
+        assert!(c10_slots_with_key(d, q) <= 1, "a key is stored twice");
+        assert!(c10_valid_slots(d) == d.len, "len is not the number of Valid slots");
+        step += 1;
+    }
+    kani::cover!(replaced, "an existing key was replaced");
+    kani::cover!(reinserted_after_remove, "insert after a removal (tombstone on the probe path)");
+    kani::cover!(reference.len() == STEPS as u64, "all steps inserted distinct keys");
+    kani::cover!(m.capacity() == 64, "first insert grew the table to the minimum capacity");
+    kani::cover!(true, "end of harness reachable");
+    std::mem::forget(m);
+    std::mem::forget(s);
+}
+
+//@ id=C10 tier=quick timeout=1200 bounds="empty map (capacity 0: remove + lookup, then the first insert grows it to 64); then 2 further symbolic steps insert(k, v) / remove(k) (3 steps in all), k from {0,64,1,65,128} (colliding home slots, 0 = default key), v any u64; after every step one symbolic query key" desc="MapImpl (one direction of the alias mapping) behaves like a reference map: insert returns the replaced value, value/contains/len/is_empty agree after every step, a key occupies at most one slot, len == number of Valid slots" kernel="MapImpl::insert,MapImpl::remove,MapImpl::value,MapImpl::contains,MapImpl::len,MultiMapImpl::insert_or_replace,MultiMapImpl::remove_key,MultiMapImpl::rehash" args="--no-assertion-reach-checks"
+#[kani::proof]
+#[kani::stub(std::fmt::format, crate::verif_support::fmt_stub)]
+#[kani::stub(crate::DbError::new, crate::verif_support::dberror_new_stub)]
+#[kani::unwind(6)]
+fn c10_map_matches_reference_3_steps() {
+    c10_map_history::<3>();
+}
+
+//@ id=C10 tier=thorough timeout=3000 bounds="as c10_map_matches_reference_3_steps with 4 steps" desc="MapImpl behaves like a reference map over 4-step histories of insert / replace / remove with colliding keys" kernel="MapImpl::insert,MapImpl::remove,MapImpl::value,MapImpl::contains,MapImpl::len,MultiMapImpl::insert_or_replace,MultiMapImpl::remove_key" args="--no-assertion-reach-checks"
+#[kani::proof]
+#[kani::stub(std::fmt::format, crate::verif_support::fmt_stub)]
+#[kani::stub(crate::DbError::new, crate::verif_support::dberror_new_stub)]
+#[kani::unwind(6)]
+fn c10_map_matches_reference_4_steps() {
+    c10_map_history::<4>();
+}
+
+//@ id=C10 tier=quick timeout=900 bounds="arbitrary 8-slot table (states, keys, values symbolic; the iterator only reads: same code at every capacity); iteration driven to the end" desc="MapIterator (iter(), what select-all-aliases walks) yields exactly the Valid slots, each once, in slot order, and then None" kernel="MapIterator::next,MapImpl::iter,MultiMapImpl::iter" args="--no-assertion-reach-checks"
+#[kani::proof]
+#[kani::stub(std::fmt::format, crate::verif_support::fmt_stub)]
+#[kani::stub(crate::DbError::new, crate::verif_support::dberror_new_stub)]
+#[kani::unwind(10)]
+fn c10_map_iter_yields_valid_slots() {
+    let s = fresh_arr_storage();
+    let data = ArrMap::<8> {
+        states: kani::any(),
+        keys: kani::any(),
+        values: kani::any(),
+        len: kani::any(),
+        cap: 8,
+    };
+    let mut i = 0;
+    while i < 8 {
+        kani::assume(data.states[i] <= 2);
+        i += 1;
+    }
+    let m: C10MapImpl<8> = MapImpl {
+        multi_map: MultiMapImpl {
+            data,
+            phantom_marker: PhantomData,
+        },
+        storage: PhantomData,
+    };
+    let d = c10_data(&m);
+    let mut it = m.iter(&s);
+    let mut slot = 0usize; // next slot the reference expects to be examined
+    let mut yielded = 0;
+    let mut calls = 0;
+    while calls < 9 {
+        // reference: next Valid slot at or after `slot`
+        while slot < 8 && d.states[slot] != 1 {
+            slot += 1;
+        }
+        match it.next() {
+            Some((k, v)) => {
+                assert!(slot < 8, "iterator yields more pairs than there are Valid slots");
+                assert!(k == d.keys[slot] && v == d.values[slot], "iterator skipped a Valid slot or yielded a non-Valid one");
+                slot += 1;
+                yielded += 1;
+            }
+            None => {
+                assert!(slot == 8, "iterator ended before the last Valid slot");
+            }
+        }
+        calls += 1;
+    }
+    kani::cover!(yielded == 8, "full table");
+    kani::cover!(yielded == 2 && d.states[0] == 2 && d.states[7] == 1, "tombstone first, Valid last");
+    kani::cover!(true, "end of harness reachable");
+    std::mem::forget(m);
+    std::mem::forget(s);
+}
